@@ -317,6 +317,27 @@ def template_stream(ctx):
                 tl = use.replace("@", "(kk" + ch + ")")
                 out.append(("C08:folded-collection-filter:" + ch.split("|")[1].split("(")[0],
                             [("optimized", {}, t, {}), ("unoptimized", {"optimized": False}, t, {}), ("constant-lifted", {}, tl, {"kk": val})]))
+    # a folded constant is WRITTEN into the generated source: its text must mean the same value in every operator context
+    # whose other operand is not constant (sign, zero sign, magnitude, non-finite, non-numeric constants)
+    import jinja2
+    ref = jinja2.Environment(optimized=False)
+    awkward = ["-0.0", "0.0 * -1", "-(1.5 - 1.5)", "0 * -1.5", "-1.5", "-2", "1 - 3", "-(2)", "0 - 0.0", "-0.0 * 1", "-(0.0)", "+(-0.0)", "0.0", "1.5", "10 ** 3", "-(10 ** 3)",
+               "1e308 * 10", "-(1e308 * 10)", "(1e308 * 10) - (1e308 * 10)", "1 - 1", "true", "-true", "none", '"a"', '"-1"', "(1, 2)", "[1]", "-1|abs", "(-1)|abs", "-(1|abs)",
+               "1 / -2", "-7 // 2", "-7 % 3", "(-2) ** 2", "-2 ** 2", "2 ** -1", "(0.0 * -1) * 1", "[-0.0][0]", "(-0.0, 1)[0]", "{'k': -0.0}['k']", "-0.0 if true else 1"]
+    contexts = ["(@) ** x", "x ** (@)", "-(@)", "+(@)", "(@) * x", "x * (@)", "x - (@)", "(@) - x", "x + (@)", "(@) / x", "(@) // x", "(@) % x", "x % (@)", "(@) < x", "x ~ (@)", "(@) ~ x",
+                "(@)|abs", "(@)|string", "not (@)", "(@) is number", "(@) == x", "[(@), x]", "(@) if x else x", "x if (@) else (@)", "(@) ** x ** x", "(x ** (@)) ** x", "-(@) ** x", "(@).real",
+                "((@), x)|first", "{'k': (@), 'x': x}.k", "(@) and x", "x and (@)", "(@)|default(x)"]
+    for c in awkward:
+        try:
+            kk = ref.compile_expression(c, undefined_to_none=False)()
+        except Exception:
+            continue
+        for cx in contexts:
+            for xv in (2, 3, 0.5, -1, 0):
+                t = "{{ " + cx.replace("@", c) + " }}"
+                grp = [("optimized", {}, t, {"x": xv}), ("unoptimized", {"optimized": False}, t, {"x": xv}),
+                       ("constant-lifted", {}, "{{ " + cx.replace("@", "kk") + " }}", {"x": xv, "kk": kk})]
+                out.append(("C08:constant-text-in-operator-context:" + cx, grp))
     fins = {"none-to-empty": (lambda x: "" if x is None else x), "wrap": (lambda x: "<%s>" % (x,)), "identity": (lambda x: x)}
     for fname, fin in fins.items():
         for ae in (False, True):
@@ -369,9 +390,10 @@ POS_TEMPLATES = {
     "call-block": "{% macro m() %}{{ caller() }}{% endmacro %}{% call m() %}{{ @ }}{% endcall %}", "for-body": "{% for i in [1, 2] %}{{ @ }}{% endfor %}",
     "static-ae-on": "{% autoescape true %}{{ @ }}{% endautoescape %}", "static-ae-off": "{% autoescape false %}{{ @ }}{% endautoescape %}",
     "runtime-ae": "{% autoescape yy %}{{ @ }}{% endautoescape %}", "dict-value": "{{ {'k': @}['k'] }}", "test-arg": "{{ 1 is eq(@) }}", "print-stmt": "{% print @ %}",
+    "dead-branch": "{% if false %}{{ @ }}{% endif %}ok", "untaken-branch": "{% if nn %}{{ @ }}{% endif %}ok", "short-circuit": "{{ nn and (@) }}",
     "child-block": None, "include": None, "import": None,
 }
-ENV_KINDS = ["default", "autoescape", "async", "overlay", "template-ctor", "selector-html", "selector-txt"]
+ENV_KINDS = ["default", "autoescape", "async", "overlay", "template-ctor", "selector-html", "selector-txt", "strict-undefined", "chainable-undefined", "debug-undefined", "sandbox", "native"]
 
 
 def pos_render(kind, optimized, pos, esrc, data):
@@ -385,6 +407,13 @@ def pos_render(kind, optimized, pos, esrc, data):
         kw["enable_async"] = True
     if kind.startswith("selector"):
         kw["autoescape"] = jinja2.select_autoescape(["html"])
+    if kind.endswith("-undefined"):
+        kw["undefined"] = {"strict": jinja2.StrictUndefined, "chainable": jinja2.ChainableUndefined, "debug": jinja2.DebugUndefined}[kind.split("-")[0]]
+    cls = jinja2.Environment
+    if kind == "sandbox":
+        from jinja2.sandbox import SandboxedEnvironment as cls
+    if kind == "native":
+        from jinja2.nativetypes import NativeEnvironment as cls
     body = POS_TEMPLATES[pos]
     files = {}
     if pos == "child-block":
@@ -392,21 +421,22 @@ def pos_render(kind, optimized, pos, esrc, data):
     elif pos == "include":
         files = {"inc": "{{ " + esrc + " }}", name: "<{% include 'inc' %}>"}
     elif pos == "import":
-        files = {"lib": "{% macro m() %}{{ " + esrc + " }}{% endmacro %}", name: "{% import 'lib' as l %}{{ l.m() }}"}
+        files = {"lib": "{% macro m() %}{{ " + esrc + " }}{% endmacro %}", name: "{% import 'lib' as l with context %}{{ l.m() }}"}
     else:
         files = {name: body.replace("@", esrc)}
-    d = dict(data, yy=True, ff=lambda v: v)
+    d = dict(data, yy=True, nn=False, ff=lambda v: v)
     try:
         if kind == "template-ctor" and len(files) == 1:
             t = jinja2.Template(files[name], **kw)
         else:
-            env = jinja2.Environment(loader=jinja2.DictLoader(files), **kw)
+            env = cls(loader=jinja2.DictLoader(files), **kw)
             if kind == "overlay":
                 env = env.overlay(lstrip_blocks=True)
             t = env.get_template(name)
         if kind == "async":
             return ("ok", X.run_async(t.render_async(**d)))
-        return ("ok", t.render(**d))
+        out = t.render(**d)
+        return ("ok", out if isinstance(out, str) else (type(out).__name__, repr(out)))
     except Exception as ex:
         return ("err", X.err_class(ex))
 
@@ -415,10 +445,36 @@ def run_position_stream(ctx):
     g = X.EGen(ctx.rng, const_rich=True)
     poss = list(POS_TEMPLATES)
     n = ctx.size(450, 9000)
-    for i in range(n):
-        e = g.gen(ctx.rng.randint(1, 3)) if i >= len(FIXED) else FIXED[i]
-        pos = poss[i % len(poss)]
-        kind = ENV_KINDS[(i // len(poss) + i) % len(ENV_KINDS)]
+    # second half: constants whose VALUE misbehaves when it is used (the environment's undefined object, None, empty containers)
+    # under every operator, mostly in code that is never executed -- folding must not run what the render would not run
+    dead = ["dead-branch", "untaken-branch", "short-circuit", "dead-branch", "untaken-branch", "short-circuit", "if", "set", "for-body"]
+    nb = ctx.size(600, 9000)
+
+    def wrapped():
+        r = ctx.rng
+        u = g.atom("none") if r.random() < 0.6 else g.access(2)
+        if r.random() < 0.25:
+            # a constant container accessed by a name that is BOTH a key and an attribute / method of the container type
+            nm = r.choice(["keys", "items", "values", "get", "copy", "count", "index", "real", "upper", "a"])
+            lit = r.choice([("D", [(("C", nm), g.gen(1))]), ("D", [(("C", nm), ("C", 1)), (("C", "a"), ("C", 2))]), ("L", [("C", 1)]), ("T", [("C", 1), ("C", 1)]), ("C", "ab"), ("C", 3)])
+            u = r.choice([(".", lit, nm), ("[]", lit, ("C", nm)), ("call", (".", lit, nm), [], []), ("F", ("call", (".", lit, nm), [], []), "list", []), ("call", (".", lit, nm), [("C", 1)], [])])
+        for _ in range(r.randint(1, 2)):
+            x, y = g.gen(1), g.gen(1)
+            u = r.choice([("&", u, x), ("&", x, u), ("|", u, x), ("|", x, u), ("?", u, x, y), ("?", u, x, None), ("?", x, u, y), ("~", [u, x]), ("~", [x, u]),
+                          ("!", u), ("cmp", u, [(r.choice(["eq", "lt", "in"]), x)]), ("cmp", x, [("in", u)]), ("F", u, r.choice(["upper", "length", "string", "list", "first", "abs"]), []),
+                          ("F", u, "default", [x]), ("is", u, r.choice(["defined", "none", "odd", "string"]), []), ("B", r.choice(["add", "mul", "mod"]), u, x),
+                          ("B", "sub", x, u), ("U", "neg", u), ("[]", u, x), ("[]", x, u), (".", u, "a"), ("L", [u, x]), ("D", [(("C", "k"), u)]), ("sl", x, u, None, None)])
+        return u
+
+    for i in range(n + nb):
+        if i < n:
+            e = g.gen(ctx.rng.randint(1, 3)) if i >= len(FIXED) else FIXED[i]
+            pos = poss[i % len(poss)]
+            kind = ENV_KINDS[(i // len(poss) + i) % len(ENV_KINDS)]
+        else:
+            e = wrapped()
+            pos = dead[i % len(dead)]
+            kind = ENV_KINDS[(i // len(dead) + i) % len(ENV_KINDS)]
         data = X.make_data(random.Random(i), [])
         src = "(" + X.to_src(e) + ")"
         acc = {}
